@@ -346,3 +346,181 @@ def early_return_cases(ctx, cfg, rnd, exact_code, selector, compile_src):
             if not r.ok or r.out != word(es + 1):
                 probs.append((name, src, "runtime function fails after deployment (lock left held?)", a))
     return probs, n, skipped
+
+
+# ---------------------------------------------------------------- calls returning data inside __init__
+# (wave-3 seeded change C16_m4: the deploy stub's memory offsets became RETURNDATASIZE for pre-shanghai targets; that is
+# zero only if the constructor received no return data.)  Static tie: the legacy stub's offsets are literal pushes of
+# mem_deploy_start = mem_deploy_end - len(runtime) on every evm version.  Dynamic: a constructor that makes external
+# calls returning 32 / 160 / revert-data bytes before its end, immutables assigned before and after them.
+
+ORACLE = """
+@external
+@view
+def price() -> uint256:
+    return 31337
+
+@external
+def poke(x: uint256) -> uint256:
+    return x ^ 5
+
+@external
+@view
+def blob() -> Bytes[100]:
+    return b"immutables must not move when the constructor has received return data 0123456789"
+
+@external
+@view
+def fail():
+    raise "a revert reason that is longer than thirty-two bytes, on purpose"
+"""
+
+CALL_CTOR = """
+interface Oracle:
+    def price() -> uint256: view
+    def poke(x: uint256) -> uint256: nonpayable
+    def blob() -> Bytes[100]: view
+
+A: public(immutable(uint256))
+P: public(immutable(uint256))
+C: public(immutable(Bytes[100]))
+K: public(immutable(uint256))
+D: public(immutable(address))
+OK: public(immutable(bool))
+s: public(uint256)
+
+@deploy
+def __init__(o: address, a: uint256):
+    A = a{frame}
+    self.s = extcall Oracle(o).poke(a)
+    P = staticcall Oracle(o).price()
+    C = staticcall Oracle(o).blob()
+    K = a ^ 7
+    D = msg.sender
+{last}
+{bloat}
+"""
+
+LAST_CALLS = {   # statement(s) executed last in __init__ -> the return data the deploy stub sees
+    "staticcall-32": "    OK = (staticcall Oracle(o).price()) == 31337",
+    "staticcall-160": "    OK = len(staticcall Oracle(o).blob()) == 82",
+    "extcall-32": "    OK = True\n    self.s = extcall Oracle(o).poke(self.s)\n    self.s = a ^ 5",
+    "raw_call-outsize": "    r: Bytes[32] = raw_call(o, method_id(\"price()\"), max_outsize=32, is_static_call=True)\n    OK = len(r) == 32",
+    "raw_call-revert-data": "    ok: bool = raw_call(o, method_id(\"fail()\"), revert_on_failure=False)\n    OK = not ok",
+    "none": "    OK = True",
+}
+
+
+def legacy_stub_tie(asm, rt_len, imm_len):
+    """read the legacy deploy stub off the assembly list:  PUSH len, PUSHLABEL runtime_begin, PUSH s, CODECOPY,
+    CONST mem_deploy_end E, PUSH amount, PUSH s, RETURN  with literal pushes, s + len == E, len == len(runtime),
+    amount == len + immutables.  -> (problems, s)"""
+    from vyper.evm.assembler import instructions as I
+
+    def push_at(i):
+        op = asm[i] if i < len(asm) else None
+        if isinstance(op, str) and op.startswith("PUSH") and op[4:].isdigit():
+            n = int(op[4:])
+            imm = asm[i + 1:i + 1 + n]
+            if all(isinstance(b, int) for b in imm) and len(imm) == n:
+                return int.from_bytes(bytes(imm), "big"), i + 1 + n
+        return None, i
+
+    ps = [i for i, x in enumerate(asm) if isinstance(x, I.PUSHLABEL) and "runtime_begin" in repr(x)
+          and "CODECOPY" in asm[i + 1:i + 36] and any(isinstance(y, I.CONST) for y in asm[i + 1:i + 40])]
+    if not ps:
+        return ["deploy stub (PUSHLABEL runtime_begin ... CODECOPY CONST mem_deploy_end) not found in the assembly"], None
+    p = ps[-1]
+    ln = next((push_at(i)[0] for i in range(max(0, p - 33), p) if push_at(i)[1] == p and push_at(i)[0] is not None), None)
+    shown = [repr(x) for x in asm[max(0, p - 3):p + 14]]
+    s, j = push_at(p + 1)
+    if s is None:
+        return [f"CODECOPY destination of the deploy stub is not a literal push (mem_deploy_start): {shown}"], None
+    probs = []
+    if asm[j] != "CODECOPY" or not isinstance(asm[j + 1], I.CONST):
+        return [f"deploy stub has an unexpected shape after the destination push: {shown}"], s
+    end = asm[j + 1].value
+    amount, k = push_at(j + 2)
+    s2, k2 = push_at(k)
+    if amount is None or s2 is None or asm[k2] != "RETURN":
+        return [f"RETURN length / offset of the deploy stub are not literal pushes: {shown}"], s
+    if ln != rt_len:
+        probs.append(f"deploy stub copies {ln} bytes of runtime code, bytecode_runtime has {rt_len}")
+    if s + rt_len != end:
+        probs.append(f"deploy stub copies the runtime code to {s} but mem_deploy_end = {end} != {s} + {rt_len}")
+    if s2 != s:
+        probs.append(f"deploy stub copies to {s} but RETURNs from {s2}")
+    if amount != rt_len + imm_len:
+        probs.append(f"deploy stub RETURNs {amount} bytes, runtime + immutables = {rt_len} + {imm_len}")
+    return probs, s
+
+
+def call_ctor_cases(ctx, cfg, rnd, exact_code, selector, compile_src):
+    """-> (problems [(variant, source, what)], n deployments, stats)"""
+    from eth_abi import encode
+    from vyper.compiler.settings import anchor_settings
+    probs, n, st = [], 0, {"start0": 0, "start>0": 0, "stub_ties": 0}
+    try:
+        orc = compile_src(ORACLE, cfg, formats=("bytecode",))
+    except Exception as e:  # noqa
+        return [("oracle", ORACLE, f"compile failed: {type(e).__name__}: {str(e)[:120]}")], 0, st
+    variants = list(LAST_CALLS)
+    picks = variants if ctx.tier == "thorough" else [variants[0], rnd.choice(variants[1:5]), rnd.choice(variants[1:5])]
+    d = _mods_dir()
+    for vi, var in enumerate(dict.fromkeys(picks)):
+        big = (vi % 3 == 2)     # a frame larger than the runtime code: mem_deploy_start > 0
+        frame = "\n    big: uint256[900] = empty(uint256[900])\n    big[a % 900] = a\n    self.s = big[a % 900]" if big else ""
+        bloat = "\n".join(f"@external\ndef g{i}(x: uint256) -> uint256:\n    return x * {i + 3} + self.s + A\n" for i in range(0 if big else 6))
+        src = CALL_CTOR.format(frame=frame, last=LAST_CALLS[var], bloat=bloat)
+        try:
+            cd = compiler_data(src, cfg, d)
+            with anchor_settings(cd.settings):
+                init, rt = cd.bytecode, cd.bytecode_runtime
+                asm = None if cfg.venom else cd.assembly
+                layout = flat_layout(cd.storage_layout.get("code_layout", {}))
+        except Exception as e:  # noqa
+            probs.append((var, src, f"compile failed: {type(e).__name__}: {str(e)[:120]}"))
+            continue
+        imm_len = sum(v["length"] for v in layout.values())
+        if asm is not None:
+            pr, s = legacy_stub_tie(asm, len(rt), imm_len)
+            st["stub_ties"] += 1
+            if s is not None:
+                st["start0" if s == 0 else "start>0"] += 1
+            probs += [(var, src, x) for x in pr]
+        ch = Chain(cfg.evm)
+        o = ch.deploy(bytes.fromhex(orc["bytecode"][2:]))
+        a = rnd.randrange(2**256)
+        addr = ch.deploy(init + encode(["address", "uint256"], [o, a]))
+        n += 1
+        if addr is None:
+            probs.append((var, src, f"deployment fails (a={a})"))
+            continue
+        code = exact_code(ch, addr)
+        blob = b"immutables must not move when the constructor has received return data 0123456789"
+        okv = True
+        want = {"A": word(a), "P": word(31337), "K": word(a ^ 7), "D": word(int(ch_sender(ch), 16)), "OK": word(int(okv)),
+                "C": word(len(blob)) + blob + bytes(100 - len(blob))}
+        bad = []
+        if code[:len(rt)] != rt or len(code) != len(rt) + imm_len:
+            bad.append(f"deployed code is not bytecode_runtime ++ immutables (len {len(code)} vs {len(rt)} + {imm_len}, "
+                       f"runtime prefix equal: {code[:len(rt)] == rt})")
+        for name, w in want.items():
+            ent = layout.get(name)
+            got = code[len(rt) + ent["offset"]:len(rt) + ent["offset"] + ent["length"]] if ent else None
+            if got is None or got[:len(w) if name != "C" else 32 + len(blob)] != w[:len(w) if name != "C" else 32 + len(blob)]:
+                bad.append(f"immutable {name} in the deployed code is {None if got is None else got[:40].hex()} expected {w[:40].hex()}")
+        for name in ("A", "P", "K"):
+            r = ch.call(addr, selector(name + "()"))
+            if not r.ok or r.out != want[name]:
+                bad.append(f"{name}() returns {r.out.hex()} expected {want[name].hex()}")
+        r = ch.call(addr, selector("s()"))
+        if r.out != word(a ^ 5):
+            bad.append(f"s() returns {r.out.hex()} expected {word(a ^ 5).hex()}")
+        probs += [(var, src, f"{x} [last statement of __init__: {var}; a={a}]") for x in bad]
+    return probs, n, st
+
+
+def ch_sender(ch):
+    from . import evm
+    return evm.DEPLOYER
